@@ -252,3 +252,7 @@ EXTRA_EDITS = {
     "extract function: binary label guard (helper added below)": (IV, "def _merge_columns(feature_columns: np.ndarray) -> np.ndarray:",
                                                                    "def _check_binary(y, enforce):\n    if enforce and not set(np.unique(y)).issubset(set([0, 1])):\n        raise ValueError(_LABELS_NOT_0_1_ERROR_MESSAGE)\n\n\ndef _merge_columns(feature_columns: np.ndarray) -> np.ndarray:"),
 }
+
+add("C13", R, IV, "    return np.array([_join_names(row) for row in feature_columns.astype(str)])",
+    "    merged = []\n    for row in feature_columns.astype(str):\n        merged.append(_join_names(row))\n    return np.array(merged)",
+    "comprehension rewritten as an explicit loop")
